@@ -57,6 +57,14 @@ fn workload(id: u64) -> (u64, Vec<Step>, Vec<Step>) {
         b.push(Step::Flush);
         return (1024, vec![], b);
     }
+    if id == 8 {
+        // io_uring pass only: the submission-queue poller is allowed to fall asleep (1.3 s of idleness) before the
+        // faulted batch, so that submission entries whose io_uring_enter call failed stay queued for a while. A
+        // key is updated (batch fails), deleted, the delete acknowledged; later batches for other keys follow
+        let a = vec![Step::Put(0, 300), Step::Put(1, 300), Step::Flush];
+        let b = vec![Step::Wait(1300), Step::Put(0, 5000), Step::Flush, Step::Del(0), Step::Flush, Step::Put(2, 300), Step::Flush, Step::Wait(1200), Step::Probe, Step::Put(3, 300), Step::Flush, Step::Probe];
+        return (64, a, b);
+    }
     if id == 6 {
         // two flushed generations of every key, then replacements whose (multi-block) record writes fail while
         // everything else works; the background passes run between the flush attempts
@@ -606,6 +614,7 @@ pub fn run(args: &Args) -> Report {
                 plans.push((wid, json!({"enter": [[i, 4]]})));
                 plans.push((wid, json!({"enter": [[i, 4], [i + 1, 4], [i + 2, 4]]})));
                 plans.push((wid, json!({"enter": [[i, 5]]})));
+                plans.push((wid, json!({"enter": [[i, 11], [i + 1, 11], [i + 2, 11]]})));
                 plans.push((wid, json!({"at": [[(i * 7) % n.max(1), "before"]], "enter": [[i, 4]]})));
             }
         }
@@ -650,6 +659,25 @@ pub fn run(args: &Args) -> Report {
                     plans.push((wid, json!({"class": [class, start, count, if (start + count) % 2 == 0 { "before" } else { "after" }]})));
                 }
             }
+        }
+    }
+    if uring {
+        let wid = 8u64;
+        match run_child(&exe, &dir, &format!("base{wid}"), wid, &json!({}), false) {
+            Ok(base) if base["uses_uring"].as_bool() == Some(true) => {
+                if !base["problems"].as_array().map(|a| a.is_empty()).unwrap_or(true) {
+                    report.violation("fault:baseline", format!("fault-free run reports problems: {}", base["problems"]), json!({"engine": "fault", "workload": wid}));
+                }
+                let e = base["enter_calls_phase_b"].as_u64().unwrap_or(0);
+                for i in 0..e.min(6) {
+                    // the three attempts of one batch all see the same transient-looking errno
+                    plans.push((wid, json!({"enter": [[i, 11], [i + 1, 11], [i + 2, 11]]})));
+                    plans.push((wid, json!({"enter": [[i, 16], [i + 1, 16], [i + 2, 16]]})));
+                    plans.push((wid, json!({"enter": [[i, 12]]})));
+                }
+            }
+            Ok(_) => report.inconclusive.push("workload 8: the store did not take the io_uring path in this environment".into()),
+            Err(e) => report.inconclusive.push(format!("baseline child failed: {e}")),
         }
     }
     // multi-worker workloads: class-wide plans only (their calls cannot be numbered); repeated, since the
